@@ -215,7 +215,7 @@ func Call(seed uint64, f func()) CallResult {
 	active.Store(s)
 	defer active.Store(nil)
 	root := s.newTask(nil)
-	go s.runTask(root, f, nil)
+	go s.runTask(root, root.park, f, nil)
 	s.loop(root)
 	sum := sha256.Sum256(s.trace)
 	s.res.Interleaving = hex.EncodeToString(sum[:8])
@@ -230,8 +230,8 @@ func (s *Sched) newTask(scopes []*scope) *task {
 	return t
 }
 
-func (s *Sched) runTask(t *task, f func(), after func()) {
-	<-t.park
+func (s *Sched) runTask(t *task, start chan bool, f func(), after func()) {
+	<-start
 	defer func() {
 		if r := recover(); r != nil {
 			if s.res.Panic == nil {
@@ -360,9 +360,7 @@ func hasScope(t *task, sc *scope) bool {
 	return false
 }
 
-// cancelScope cancels sc logically now; the real context is cancelled at once when no task is
-// parked inside an engine handler under it, otherwise when such a task is next scheduled, so
-// that the goroutine blocked in the RPC call only resumes while it holds the processor.
+// cancelScope cancels sc logically now; see the comment at the end for when the real context follows.
 func (s *Sched) cancelScope(sc *scope) {
 	if sc.cancelled {
 		return
@@ -371,13 +369,11 @@ func (s *Sched) cancelScope(sc *scope) {
 	if sc.err == nil {
 		sc.err = context.Canceled
 	}
-	parked := false
 	for _, t := range s.tasks {
 		if t.state == tsDone || t.state == tsRunning || !hasScope(t, sc) {
 			continue
 		}
 		if t.inHandler {
-			parked = true
 			t.abortPending = true
 			t.state = tsRunnable
 			t.blockedOn = nil
@@ -385,9 +381,10 @@ func (s *Sched) cancelScope(sc *scope) {
 			t.state = tsRunnable
 		}
 	}
-	if !parked {
-		sc.doReal()
-	}
+	// The real context is cancelled only (a) when a task parked in a handler under this scope is
+	// scheduled next, (b) when a task under this scope next enters a handler, (c) when the owner
+	// releases the scope. Cancelling it right away would let a task that has not issued its RPC
+	// yet race between sending the request and seeing ctx.Done (rpc.Client selects on both).
 }
 
 // parkCur parks the current task (state already set) and hands the processor back.
@@ -631,7 +628,7 @@ func Go(f func()) {
 	}
 	child := s.newTask(s.cur.scopes)
 	s.note('g', child.id, 0)
-	go s.runTask(child, f, nil)
+	go s.runTask(child, child.park, f, nil)
 }
 
 func GroupWithContext(ctx context.Context) (*errgroup.Group, context.Context) {
@@ -671,8 +668,9 @@ func GroupGo(eg *errgroup.Group, f func() error) {
 	}
 	child := s.newTask(scopes)
 	s.note('g', child.id, 0)
+	start := child.park
 	eg.Go(func() (err error) {
-		s.runTask(child, func() { err = f() }, func() {
+		s.runTask(child, start, func() { err = f() }, func() {
 			g.pending--
 			if err != nil && g.scope != nil {
 				g.scope.err = context.Canceled
